@@ -546,39 +546,43 @@ pub fn ref_train(lab: Lab, ptype: u16, frag_id: u8, pdu: &[u8], cuts: &[usize]) 
     let crc = refcrc::gse_crc(total_len, ptype, &label, pdu);
     let mut out = vec![];
     let mut pos = 0usize;
-    for (i, c) in cuts.iter().enumerate() {
-        let n = (*c).min(pdu.len() - pos);
-        let p = if i == 0 {
-            RefPacket {
-                start: true,
-                end: false,
-                lt: lab.lt(),
-                frag_id: Some(frag_id),
-                total_len: Some(total_len),
-                label: label.clone(),
-                exts: vec![],
-                ptype: Some(ptype),
-                first_type: None,
-                payload: pdu[pos..pos + n].to_vec(),
-                crc: None,
-            }
+    // respect the 4095-byte GSE length: first <= 4090 - L, intermediate <= 4094, end <= 4090;
+    // extra intermediates are added when what remains does not fit an end packet
+    let mut cuts: Vec<usize> = cuts.to_vec();
+    if cuts.is_empty() {
+        cuts.push(pdu.len().min(1));
+    }
+    let mut i = 0usize;
+    loop {
+        let is_first = i == 0;
+        let cap = if is_first { 4090 - label.len() } else { 4094 };
+        let remaining = pdu.len() - pos;
+        let n = if i < cuts.len() {
+            cuts[i].min(cap).min(remaining)
+        } else if remaining > 4090 {
+            cap.min(remaining - 1)
         } else {
-            RefPacket {
-                start: false,
-                end: false,
-                lt: 3,
-                frag_id: Some(frag_id),
-                total_len: None,
-                label: vec![],
-                exts: vec![],
-                ptype: None,
-                first_type: None,
-                payload: pdu[pos..pos + n].to_vec(),
-                crc: None,
-            }
+            break;
         };
-        out.push(p.encode(false));
-        pos += n;
+        let p = RefPacket {
+            start: is_first,
+            end: false,
+            lt: if is_first { lab.lt() } else { 3 },
+            frag_id: Some(frag_id),
+            total_len: if is_first { Some(total_len) } else { None },
+            label: if is_first { label.clone() } else { vec![] },
+            exts: vec![],
+            ptype: if is_first { Some(ptype) } else { None },
+            first_type: None,
+            payload: pdu[pos..pos + n].to_vec(),
+            crc: None,
+        };
+        // an intermediate packet must carry at least one byte
+        if is_first || n > 0 {
+            out.push(p.encode(false));
+            pos += n;
+        }
+        i += 1;
     }
     out.push(
         RefPacket {
@@ -626,6 +630,8 @@ pub struct Ledger {
     pub faults: Vec<(MemOp, u32)>,
     pub injected: u32,
     pub calls: u64,
+    /// number of buffers that left the memory since the last `begin_call`
+    pub took_in_call: u32,
 }
 
 pub struct LedgerMemory<M: GseDecapMemory> {
@@ -662,9 +668,11 @@ impl Ledger {
     fn comes_out(&mut self, len: usize) {
         remove_one(&mut self.inside, len);
         self.out_in_call.push(len);
+        self.took_in_call += 1;
     }
     pub fn begin_call(&mut self) {
         self.out_in_call.clear();
+        self.took_in_call = 0;
     }
 }
 
